@@ -22,10 +22,10 @@ def model_path(real_path):
     return out
 
 
-def convert(text):
+def convert(text, carried=True):
     mod = snaxrun.parse(text)
     f = ac.find_func(mod)
-    conv = ac.Conv(f)
+    conv = ac.Conv(f, carried=carried)
     return mod, f, conv
 
 
@@ -34,6 +34,7 @@ class C01(Prop):
     PARALLEL = True
     USES_IMPL = True
     CASE_TIMEOUT = 60
+    step_cov = __import__("collections").Counter()
     rule = ("random full-field programs (the lowering's form) with nested scf.for/scf.if/calls/arith, traced by the real "
             "accfg-trace-states; every individual rewrite of accfg-dedup is replayed through the model; non-trivial = dedup performed "
             "at least one rewrite inside control flow")
@@ -84,20 +85,20 @@ class C01(Prop):
         chain_ok = True
         for (name, path, before, after, *_rest) in log:
             try:
-                _, _, cb = convert(before)
+                mb, _, cb = convert(before)
                 _, _, ca = convert(after)
+                mp = cb.map_path(path, mb)
             except ac.Unsupported as e:
                 return {"unmodelled": str(e), "n_steps": len(log)}  # outside the model's IR fragment: oracle only
             if prev_after is not None and prev_after != before:
                 chain_ok = False
             prev_after = after
             rule = RULES.get(name, name)
-            mp = model_path(path)
             j = 0
             if rule == "pull":  # anchored at the loop; j = index of the matched setup in the loop body
                 j = mp[-1]
                 mp = mp[:-2]
-            steps.append({"rule": rule, "path": mp, "j": j, "before": cb.program(),
+            steps.append({"rule": rule, "path": mp, "j": j, "before": cb.program(), "carried": bool(cb.has_carried or ca.has_carried),
                           "points": ac.real_inference_at_points(cb), "after": ca.program()})
         if log and log[-1][3].strip() != out.strip() and snaxrun.text(snaxrun.parse(out)).strip() != snaxrun.text(snaxrun.parse(log[-1][3])).strip():
             chain_ok = False
@@ -117,6 +118,17 @@ class C01(Prop):
             return impl_out
         steps = []
         for s, a in zip(impl_out["steps"], answers):
+            if s.get("carried"):
+                # loop-carried data values / conditional data results are desugared by the converter; the replay of such a step is
+                # best effort: a step the model rule reproduces (with all side conditions) counts as certified, one it does not is
+                # validated by the oracle only — never a disagreement (the desugaring, not the code, may be what differs)
+                ok = ("ok" in a and a["ok"]["after"] is not None and a["ok"].get("side", True) and a["ok"]["wf"] and a["ok"]["nodup"]
+                      and ac.canon_ast(a["ok"]["after"]) == ac.canon_ast(s["after"]["body"])
+                      and [sorted(p) for p in a["ok"]["points"]] == s["points"])
+                self.step_cov["carried_steps_certified" if ok else "carried_steps_oracle_only"] += 1
+                steps.append(s)
+                continue
+            self.step_cov["steps_certified"] += 1
             if "err" in a:
                 return {"model_error": a["err"], "rule": s["rule"]}
             r = a["ok"]
@@ -143,6 +155,13 @@ class C01(Prop):
             if ac.canon_ast(a["after"]["body"]) != ac.canon_ast(b["after"]["body"]):
                 return f"step {k} ({a['rule']} at {a['path']}): model rule does not reproduce the real rewrite"
         return None
+
+    def extra_coverage(self):
+        return {"rewrite_steps": dict(self.step_cov),
+                "note": "steps_certified = real rewrite steps reproduced by the model rule with every hypothesis of its step theorem "
+                        "evaluated true (a failure is a disagreement); carried_* = steps of programs with loop-carried data values / "
+                        "conditional data results (desugared into casts by the converter): certified when the replay succeeds, oracle "
+                        "only otherwise"}
 
     def oracle(self, case, impl_out):
         if "invalid_input" in impl_out:
